@@ -33,6 +33,8 @@ func init() {
 			{ID: "C17.10", Desc: "the DSN's query reaches the driver unparsed (no lossy URL.Query() on the way)", Run: func(c *Ctx) { ruleNoLossyQueryOnDSNPath(c, "C17.10") }, MinSites: 1},
 			{ID: "C17.11", Desc: "an index moved between keys of the store is not followed to another URI's entries", Run: func(c *Ctx) { ruleIndexRefsBelongToKey(c, "C17.11") }, MinSites: 1},
 			{ID: "C17.12", Desc: "the decoded key is not wiped before it is used (no cleared buffer is returned)", Run: func(c *Ctx) { ruleKeyNotWiped(c, "C17.12") }, MinSites: 1},
+			{ID: "C17.13", Desc: "the minimum ciphertext length is the AEAD's (short values are not rejected as tampered)", Run: func(c *Ctx) { ruleCiphertextMinLength(c, "C17.13") }, MinSites: 1},
+			{ID: "C17.14", Desc: "an unusable key fails at open: the constructor's error is returned by the option", Run: func(c *Ctx) { ruleOptionReturnsConstructorError(c, "C17.14") }, MinSites: 1},
 		},
 	})
 }
